@@ -154,7 +154,26 @@ def one_case(rec: Recorder, rng, idx: int) -> None:
             nonce = magic + rng.choice([(8).to_bytes(4, "little"), (32).to_bytes(4, "little"), rng.randbytes(4)]) + rng.randbytes(24)
             rec.count("structure_lookalike_nonces")
         wit["nonce"] = nonce
-        env_seed = envelope(G, h, "DH", b"", 512, 2048, rng.choice([0, 2]), l0, l1, l2, rkid, b"", seed)
+        # the shapes of envelope the encrypting side can hold (MS-GKDI 2.2.4 / what protect builds from its cache):
+        #  A  L2 < 31, L2 key only                      (from the cache, mid interval)
+        #  B  L2 = 31, L2 key only                      (from the cache, last L2 slot of an L1 interval)
+        #  C  L2 = 31, L1 key and L2 key                (from a DC)
+        #  D  L2 = 31, L1 key, L2 key absent            (from a DC that omits the derivable key)
+        #  E  L2 < 31, L1 key (for L1-1) and L2 key     (from a DC, mid interval)
+        shape = rng.choice("AABCDE")
+        l1key = rng.randbytes(64)
+        ctx31 = crypto.kdf_ctx(rkid, l0, l1, 31)
+        if shape in "BCD":
+            l2 = 31
+            wit["pos"] = [l0, l1, l2]
+        if shape in "CD":
+            seed = crypto.sp800_108_ctr(h, l1key, crypto.KDS_LABEL, ctx31, 64)  # the L2 key at (l1, 31) IS derived from the L1 key
+            wit["seed"] = seed
+        env_l1 = l1key if shape in "CDE" else b""
+        env_l2 = b"" if shape == "D" else seed
+        wit["envelope_shape"] = shape
+        rec.count(f"nonce_envelope_shape_{shape}")
+        env_seed = envelope(G, h, "DH", b"", 512, 2048, rng.choice([0, 2]), l0, l1, l2, rkid, env_l1, env_l2)
         with mon.ENTROPY.record({32: [nonce]}) as ent:
             try:
                 kek_enc, kid = env_seed.new_kek()
@@ -174,9 +193,11 @@ def one_case(rec: Recorder, rng, idx: int) -> None:
                 rec.violation("nonce-length", f"emitted nonce of {len(nonce)} bytes, MS-GKDI / the decrypting side use 32", wit)
                 return
         want = crypto.kek_nonce(h, seed, nonce)
-        nontrivial = mode != 0 or h != "SHA512"
+        nontrivial = mode != 0 or h != "SHA512" or shape != "A"
         secret_alg = "DH"
-        env_dec = env_seed
+        # the decrypting side never holds shape B (an L2 = 31 envelope comes with its L1 key there): it is compared with the
+        # reference only; every other shape is also handed to get_kek
+        env_dec = None if shape == "B" else env_seed
     else:
         secret_alg = alg
         if alg == "DH":
@@ -320,6 +341,9 @@ def one_case(rec: Recorder, rng, idx: int) -> None:
         if kek_enc != want:
             rec.violation("kek-enc-vs-reference", f"{alg}/{h}: new_kek KEK differs from the independent implementation", wit)
             return
+    if env_dec is None:
+        rec.case((h, alg, seed, wit.get("eph", wit.get("nonce"))), nontrivial=nontrivial)
+        return
     try:
         kek_dec = env_dec.get_kek(kid)
     except Exception as e:
